@@ -57,7 +57,7 @@ func main() {
 				"one goroutine calls ReorderFetcher.Add/Flush (sourcerunner.processEvents), one consumes Output; the fetcher's own time-out goroutine is the second flusher",
 				"'lost' is decided logically: all fetches returned, the adder finished, no goroutine is inside ReorderFetcher.flush or its fetch closure (or all of them are parked for good in ReorderBuffer.Reserve with no fetch alive to drain) and fewer than n results were emitted; wall clock only feeds the watchdog (inconclusive)",
 			},
-			Rule: "ReorderFetcher[int,res] over a real EventBatcher. mode perm (index%4==0): k<=4 batches kept outstanding by gated FetchBatch calls, flushed by size / time-out / explicit Flush, released in EVERY permutation (33 (k,perm) pairs enumerated by index), output awaited after each release. mode latency (index%4==1,2): 8..80 items, MaxSize 1..5, BufferSize {0,1,2,4,8} (back-pressure in Reserve), per-fetch latency from a seeded plan (none / yields / 1..300 us), time-outs from clocks.SystemTimer 1..150 us or a harness timer fired between Adds, so size- and time-out-triggered flushes overlap. mode overtake (index%4==3): a time-out flush is started and, through verif hook batching.fetcher.between-flush-and-reserve when present (else seeded yields), held between batcher.Flush and buffer.Reserve while the Add caller fills and flushes the next batch. Oracle: emitted id sequence == added id sequence, nothing emitted afterwards. non-trivial = >=1 fetch completion inversion or >=1 time-out flush overlapping an Add; distinct by (mode, params, plan) hash"},
+			Rule: "ReorderFetcher[int,res] over a real EventBatcher. mode perm (index%4==0): k<=4 batches kept outstanding by gated FetchBatch calls, flushed by size / time-out / explicit Flush, released in EVERY permutation (33 (k,perm) pairs enumerated by index), output awaited after each release. mode latency (index%4==1,2): 8..80 items, MaxSize 1..5, BufferSize {0,1,2,4,8} (back-pressure in Reserve), per-fetch latency from a seeded plan (none / yields / 1..300 us), time-outs from clocks.SystemTimer 1..150 us or a harness timer fired between Adds, so size- and time-out-triggered flushes overlap. mode overtake (index%4==3): a time-out flush is started and, through verif hook batching.fetcher.between-flush-and-reserve when present (else seeded yields), held between batcher.Flush and buffer.Reserve while the Add caller fills and flushes the next batch. In a third of the latency cases 1..4 fetches fail (error, no results): the error channel gets one error per failed fetch and every later batch still comes out. Oracle: emitted id sequence == added id sequence without the inputs of failed fetches, nothing emitted afterwards. non-trivial = >=1 fetch completion inversion or >=1 time-out flush overlapping an Add; distinct by (mode, params, plan) hash"},
 	)
 }
 
